@@ -1,6 +1,8 @@
 package zzverif
 
 import (
+	mrserver "github.com/alicebob/miniredis/v2/server"
+	"fmt"
 	"context"
 	"errors"
 	"strconv"
@@ -87,6 +89,22 @@ func (s *spyStore) do(ctx context.Context, op, sid string, arg map[string]any, r
 		if *lin > 0 {
 			ev["lin"] = *lin // position in the trace at which the call was parked: its reads had been made by then
 		}
+	} else if strings.HasPrefix(fault, "slow") {
+		// the k-th Redis command of this call is answered late (real time): "slow<k>:<milliseconds>"
+		var k, ms int
+		_, _ = fmt.Sscanf(fault, "slow%d:%d", &k, &ms)
+		n := 0
+		for _, m := range d.env.mr {
+			m.Server().SetPreHook(func(c *mrserver.Peer, cmd string, args ...string) bool {
+				n++
+				if n == k {
+					time.Sleep(time.Duration(ms) * time.Millisecond)
+				}
+				return false
+			})
+		}
+		res, err = run()
+		d.clearRedisHook()
 	} else if strings.HasPrefix(fault, "cmd") {
 		// fail exactly the k-th Redis command this store call issues (a fault between two commands of one call)
 		k, _ := strconv.Atoi(strings.TrimPrefix(fault, "cmd"))
